@@ -294,7 +294,7 @@ class CreditControlRequest(CreditControl):
     offline: int
     sgsn_mcc_mnc: bytes
     access_network_charging_address: bytes
-    access_network_charging_identifier_gx: bytes
+    access_network_charging_identifier_gx: list[AccessNetworkChargingIdentifierGx]
     an_gw_address: bytes
     event_trigger: int
 
@@ -346,7 +346,7 @@ class CreditControlRequest(CreditControl):
         AvpGenDef("ms_timezone", AVP_TGPP_3GPP_MS_TIMEZONE, VENDOR_TGPP),
         AvpGenDef("bearer_usage", AVP_TGPP_BEARER_USAGE, VENDOR_TGPP),
         AvpGenDef("access_network_charging_address", AVP_TGPP_ACCESS_NETWORK_CHARGING_ADDRESS, VENDOR_TGPP),
-        AvpGenDef("access_network_charging_identifier_gx", AVP_TGPP_ACCESS_NETWORK_CHARGING_IDENTIFIER_GX, VENDOR_TGPP),
+        AvpGenDef("access_network_charging_identifier_gx", AVP_TGPP_ACCESS_NETWORK_CHARGING_IDENTIFIER_GX, VENDOR_TGPP, type_class=AccessNetworkChargingIdentifierGx),
         AvpGenDef("an_gw_address", AVP_TGPP_AN_GW_ADDRESS, VENDOR_TGPP),
         AvpGenDef("event_trigger", AVP_TGPP_EVENT_TRIGGER, VENDOR_TGPP),
     )
@@ -364,6 +364,7 @@ class CreditControlRequest(CreditControl):
         setattr(self, "proxy_info", [])
         setattr(self, "route_record", [])
         setattr(self, "event_trigger", [])
+        setattr(self, "access_network_charging_identifier_gx", [])
 
         assign_attr_from_defs(self, self._avps)
         self._avps = []
